@@ -176,7 +176,7 @@ pub fn e1_check(id: &str) -> Option<Check> {
                 id: "C07",
                 profile: p,
                 deciding: &["O-race"],
-                rule: "C01/C03 programs in M2 (weak memory) only, address reuse in half the cases, handles/guards/returned values sent through mailboxes and dereferenced/dropped on other threads. Oracle: vector-clock race detector on the pointee payload (creator's write -> every read; every read -> destructor's write). Non-trivial: a value created by one thread was dereferenced or destroyed by another.",
+                rule: "C01/C03 programs in M2 (weak memory) only, address reuse in half the cases, handles/guards/returned values sent through mailboxes and dereferenced/dropped on other threads. Oracle: vector-clock race detector on the pointee payload (creator's write -> every read; every read -> destructor's write). Non-trivial: a value made by one program thread (not the setup thread, whose values are published by thread creation) was read through a handle, or destroyed, by another thread.",
                 nontrivial: |_, o| o.hs.cross_thread_value > 0 || o.hs.cross_thread_destroy > 0,
                 quick: 60_000,
                 thorough: 3_000_000,
@@ -213,7 +213,7 @@ pub fn e1_check(id: &str) -> Option<Check> {
                 profile: p,
                 deciding: &["O-steps"],
                 rule: "a designated reader (0..11 guards held, both strategies) performs load/load_full while an adversary completes k in {1,2,4} whole stores between any two reader steps (Burst), or while all other threads are frozen mid-operation at a generated step (Freeze). Oracle: own steps of every load on a warmed-up thread <= 4*slots+48. Non-trivial: a write completed inside a measured load that took the fallback or had its debt paid, or other threads were frozen mid-operation.",
-                nontrivial: |_, o| (o.stats.burst_writes_in_load > 0 && (o.hs.loads_fallback > 0 || o.stats.paid_by_writer > 0 || o.stats.confirm_failed > 0)) || o.stats.frozen_mid_op > 0,
+                nontrivial: |_, o| o.stats.max_load_steps > 0 && ((o.stats.burst_writes_in_load > 0 && (o.hs.loads_fallback > 0 || o.stats.paid_by_writer > 0 || o.stats.confirm_failed > 0)) || o.stats.frozen_mid_op > 0),
                 quick: 20_000,
                 thorough: 1_000_000,
                 fixup: |c| {
